@@ -212,12 +212,27 @@ func c11GenOp(g *Gen, s *c11Sim) string {
 			return fmt.Sprintf("trunc %d %d", c, to)
 		case 4: // adopt
 			c := g.R.Range(1, 3)
-			if s.hw[c] == 0 && g.R.Chance(85) {
+			if s.hw[c] == 0 && (c == 3 || g.R.Chance(60)) && g.R.Chance(85) {
 				continue
 			}
 			th := uint64(g.R.Intn(int(s.hw[c]) + 1))
 			if th == 0 && g.R.Chance(90) {
 				th = s.hw[c]
+			}
+			if c != 3 && g.R.Chance(30) {
+				// a boundary beyond the local log end: RetainedMaxSeq becomes the LEO floor
+				th = s.leo[c] + uint64(g.R.Range(1, 4))
+				g.Count("adopt:beyond-leo")
+				s.local[c], s.leo[c] = th, th
+				mx := g.R.Range(1, 2)
+				s.queue = append(s.queue, fmt.Sprintf("trim %d %d %d", c, th, mx))
+				if g.R.Chance(50) {
+					s.queue = append(s.queue, "reopen")
+				}
+				rs, _ := s.recs(g, 1, true)
+				s.queue = append(s.queue, fmt.Sprintf("app %d 0 %s", c, rs), fmt.Sprintf("trim %d %d %d", c, th, mx))
+				s.leo[c]++
+				return fmt.Sprintf("adopt %d %d", c, th)
 			}
 			if g.R.Chance(8) {
 				th = s.hw[c] + 1
